@@ -320,7 +320,15 @@ func retryAltLoops(w *World, o *Options, encs []*Enc, obls []*Obligation, workDi
 			continue
 		}
 		c2 := *e.c
-		c2.Loops, c2.AltLoops = e.c.AltLoops, nil
+		// the alternative set replaces the clauses of the loops it names; the other loops keep their primary clauses
+		merged := map[int]*LoopSpec{}
+		for k, l := range e.c.Loops {
+			merged[k] = l
+		}
+		for k, l := range e.c.AltLoops {
+			merged[k] = l
+		}
+		c2.Loops, c2.AltLoops = merged, nil
 		e2 := encodeFunction(w, e.fn, &c2)
 		var obls2 []*Obligation
 		for _, ob := range e2.obls {
